@@ -188,3 +188,104 @@ pub fn dens_statistics(ctx: &mut Ctx) {
         }
     }
 }
+
+/// exact SetSketch collision probability of one register for cardinalities (|A\B|, |B\A|, |A∩B|):
+/// registers are maxima of levels; P(level of n items <= k) = exp(-a n b^-k) for 0 <= k <= q, 1 for k >= q+1
+pub fn ssk_pcoll(b: f64, a: f64, q: u64, n1: u64, n2: u64, n3: u64) -> f64 {
+    let g = |n: u64, k: i64| -> f64 {
+        if k < 0 { 0.0 } else if k as u64 >= q + 1 || n == 0 { 1.0 } else { (-a * n as f64 * b.powf(-(k as f64))).exp() }
+    };
+    let mut p = 0.0;
+    for k in 0..=(q as i64 + 1) {
+        let (g1, g2, g3) = (g(n1, k), g(n2, k), g(n3, k));
+        let (h1, h2, h3) = (g(n1, k - 1), g(n2, k - 1), g(n3, k - 1));
+        p += (g3 - h3) * g1 * g2 + h3 * (g1 - h1) * (g2 - h2);
+    }
+    p
+}
+
+/// C07: expected fraction of equal SetSketch registers = exact collision probability; the Jaccard-bounds interval at
+/// that probability contains J (up to 1e-4)
+pub fn ssk_collision_statistics(ctx: &mut Ctx) {
+    use crate::ssk::new16;
+    let shapes = [(20u64, 20u64, 20u64), (100, 100, 100), (0, 300, 100), (50, 50, 0), (0, 0, 40), (1, 1000, 5)];
+    let trials = ctx.n(400, 6000);
+    for (b, a, q) in [(2.0f64, 20.0f64, 62u64), (1.5, 20.0, 110), (1.2, 20.0, 250), (1.001, 20.0, 65534)] {
+        for (n1, n2, n3) in shapes {
+            let p = ssk_pcoll(b, a, q, n1, n2, n3);
+            let jtrue = n3 as f64 / (n1 + n2 + n3) as f64;
+            for m in [1u64, 4, 16, 256] {
+                if b < 1.01 && m == 256 && ctx.quick() { continue; }
+                let mut rng = ctx.rng.fork();
+                ctx.begin_case(&format!("ssk collision law b={} m={} ({},{},{}) P={:.4}", b, m, n1, n2, n3, p));
+                ctx.mark_nontrivial();
+                ctx.count(&format!("ssk collision law b={}", b));
+                let tr = if m >= 256 { trials / 4 + 20 } else { trials };
+                let mut eq = 0u64;
+                for _ in 0..tr {
+                    let ids = fresh(&mut rng, (n1 + n2 + n3) as usize);
+                    let (i1, i2) = (n1 as usize, (n1 + n2) as usize);
+                    let av: Vec<u64> = ids[..i1].iter().chain(ids[i2..].iter()).cloned().collect();
+                    let bv: Vec<u64> = ids[i1..].to_vec();
+                    let (mut sa, mut sb) = (new16((b, m, a, q)), new16((b, m, a, q)));
+                    sa.sketch_slice(&av).unwrap(); sb.sketch_slice(&bv).unwrap();
+                    eq += sa.get_signature().iter().zip(sb.get_signature().iter()).filter(|(x, y)| x == y).count() as u64;
+                }
+                let frac = eq as f64 / (tr as f64 * m as f64);
+                let detail = serde_json::json!({"b":b,"a":a,"q":q,"m":m,"a_only":n1,"b_only":n2,"common":n3});
+                judge(ctx, format!("ssk-coll:b={}:{}-{}-{}:m={}", b, n1, n2, n3, m), "expected fraction of equal SetSketch registers differs from the exact collision probability (fresh random items)", p, frac, tr, detail.clone());
+                // bounds at the exact collision probability contain J (1e-4)
+                let pp = p.min(1.0);
+                let (lo, hi) = match catch(move || probminhash::setsketcher::SetSketchParams::new(b, m, a, q).get_jaccard_bounds(pp)) {
+                    Ok(r) => r,
+                    Err(msg) => {
+                        ctx.oracle_failure(serde_json::json!({"kind":"impl_violates_property","key":format!("ssk-bounds-abort:b={}:P={}",b,pp),
+                            "what":"get_jaccard_bounds aborts at the exact collision probability of a sketch pair","b":b,"collision_probability":pp,"msg":msg,"case":detail}));
+                        continue;
+                    }
+                };
+                if !(lo - 1e-4 <= jtrue && jtrue <= hi + 1e-4) && n1 + n2 + n3 >= 40 {
+                    ctx.oracle_failure(serde_json::json!({"kind":"impl_violates_property","key":format!("ssk-bounds:b={}:{}-{}-{}",b,n1,n2,n3),
+                        "what":"Jaccard bounds at the exact collision probability do not contain the true Jaccard index (1e-4)","J":jtrue,"lo":lo,"hi":hi,"P":p,"case":detail}));
+                }
+            }
+        }
+    }
+}
+
+/// C06: cardinality estimate over fresh item sets: |mean relative error| <= 2 RSD^2 (+ noise) and, for m >= 64,
+/// observed spread within 15% of the advertised RSD
+pub fn ssk_cardinality_statistics(ctx: &mut Ctx) {
+    use crate::ssk::new16;
+    let trials = ctx.n(300, 1500);
+    for (b, m) in [(1.001f64, 64u64), (1.001, 256), (1.001, 1024), (1.2, 64), (2.0, 256)] {
+        let q = if b < 1.01 { 65534 } else if b < 1.5 { 250 } else { 62 };
+        for n in [1u64, 7, 100, 3000] {
+            if ctx.quick() && n >= 3000 && m >= 1024 { continue; }
+            let mut rng = ctx.rng.fork();
+            ctx.begin_case(&format!("ssk cardinality law b={} m={} n={}", b, m, n));
+            ctx.mark_nontrivial();
+            let (mut s1, mut s2, mut rsd) = (0.0f64, 0.0f64, 0.0f64);
+            for _ in 0..trials {
+                let ids: Vec<u64> = (0..n).map(|_| rng.next() >> 1).collect();
+                let mut s = new16((b, m, 20.0, q));
+                s.sketch_slice(&ids).unwrap();
+                let (card, r) = s.get_cardinal_stats();
+                let e = card / n as f64 - 1.0;
+                s1 += e; s2 += e * e; rsd = r;
+            }
+            let t = trials as f64;
+            let mean = s1 / t;
+            let sd = (s2 / t - mean * mean).max(0.0).sqrt();
+            let detail = serde_json::json!({"b":b,"m":m,"n":n,"mean_rel_err":mean,"spread":sd,"advertised_rsd":rsd,"trials":trials});
+            // mean: bias bound 2 RSD^2 plus 5 standard errors of the mean
+            if mean.abs() > 2.0 * rsd * rsd + 5.0 * rsd / t.sqrt() {
+                ctx.oracle_failure(serde_json::json!({"kind":"impl_violates_property","key":format!("ssk-card-bias:b={}:m={}:n={}",b,m,n),"what":"mean relative error of the cardinality estimate exceeds 2 RSD^2 (beyond noise)","case":detail}));
+            }
+            // spread within 15% of the advertised RSD (m >= 64); the spread estimate itself has s.e. ~ rsd / sqrt(2 t)
+            if (sd / rsd - 1.0).abs() > 0.15 + 4.0 / (2.0 * t).sqrt() {
+                ctx.oracle_failure(serde_json::json!({"kind":"impl_violates_property","key":format!("ssk-card-spread:b={}:m={}:n={}",b,m,n),"what":"observed relative spread of the cardinality estimate is not within 15% of the advertised RSD","case":detail}));
+            }
+        }
+    }
+}
